@@ -2,10 +2,11 @@
 # Runs one quick check against a scratch clone of /repo with a patch applied (sensitivity probe of
 # the machinery; /repo itself is not touched). usage: tools/mutant-iso.sh <patch.diff> <Cnn> [seed]
 set -u
+PATCH=$(realpath "$1")
 ISO=/dev/shm/mutant.$$
 rm -rf "$ISO"; mkdir -p "$ISO"
 git clone -q /repo "$ISO/repo"
-git -C "$ISO/repo" apply "$1" || { echo "patch does not apply"; rm -rf "$ISO"; exit 2; }
+git -C "$ISO/repo" apply "$PATCH" || { echo "patch does not apply"; rm -rf "$ISO"; exit 2; }
 rsync -a --exclude replays --exclude 'sim/target' --exclude seeded /verif/ "$ISO/verif/"
 sed -i "s#path = \"/repo\"#path = \"$ISO/repo\"#" "$ISO/verif/sim/Cargo.toml"
 (cd "$ISO/verif" && VERIF_SEED=${3:-20260926} ./check "$2" quick 2>&1 | grep -v '^KNOWN-FINDING' | cut -c1-${CUT:-600})
